@@ -48,15 +48,32 @@ def run_hotloop(ctx):
     body = ("continue", "pass", "x = probe(root, i)")[t.choose(3)]
     via = t.choose(3)  # where the probe is called from: __exit__, __enter__, the loop body
     ctx.case = {"kind": kind, "iterations": n, "body": body, "probe_from": via}
-    state = {"n": 0, "bad": None}
+    state = {"n": 0, "bad": None, "with_contexts": t.choose(2) == 1, "mgr": None}
+    if state["with_contexts"]:
+        n = min(n, 600)  # a full context analysis per iteration is ten times the cost
     box = {}
 
     def probe(*a):
         root = box["root"]
-        with warnings.catch_warnings():
-            warnings.simplefilter("ignore")
-            st = stackscope.extract(root, with_contexts=False)
+        wc = state["with_contexts"]
+        with warnings.catch_warnings(record=True) as wl:
+            warnings.simplefilter("always")
+            st = stackscope.extract(root, with_contexts=wc)
         state["n"] += 1
+        if state["bad"] is None and wl:
+            state["bad"] = "iteration %d: warning %s" % (state["n"], str(wl[0].message)[:200])
+        if state["bad"] is None and wc and st.frames:
+            # the root frame's own contexts: from __enter__ none yet, from the body the manager,
+            # from __exit__ the manager, exiting
+            cs = st.frames[0].contexts
+            where = a[0] if a else "body"
+            want = {"enter": 0, "body": 1, "exit": 1}[where]
+            ok = len(cs) == want
+            if ok and want:
+                ok = cs[0].obj is state["mgr"] and bool(cs[0].is_exiting) == (where == "exit") and cs[0].varname == "x"
+            if not ok:
+                state["bad"] = "iteration %d: probe from %s: contexts of the running root %r" % (
+                    state["n"], where, [(type(c.obj).__name__, c.is_exiting, c.varname) for c in cs])
         if state["bad"] is None:
             # ground truth: the frames from the root's own frame to this one
             truth = []
@@ -75,13 +92,14 @@ def run_hotloop(ctx):
 
     class M(object):
         def __enter__(self):
+            state["mgr"] = self
             if via == 1:
-                probe()
+                probe("enter")
             return self
 
         def __exit__(self, *a):
             if via == 0:
-                probe()
+                probe("exit")
             return False
 
     ns = {"M": M, "probe": probe, "box": box, "sys": sys, "types": types}
@@ -119,7 +137,7 @@ def run_hotloop(ctx):
         except BaseException:
             pass
     ctx.stat("hotloop_extractions", state["n"])
-    ctx.cover(("hotloop", kind, via, body[:4], n // 500))
+    ctx.cover(("hotloop", kind, via, body[:4], n // 500, state["with_contexts"]))
     ctx.log("hot", kind, n, state["n"], state["bad"] is None)
     if state["bad"]:
         raise Violation("c02_running_root_frames", state["bad"], ctx.case)
